@@ -1048,6 +1048,16 @@ def gen_sort(t):
     return out
 
 
+def gen_merge(t):
+    fn = py2v.find_function(t, 'merge_graphs')
+    d = default_of(fn, 'max_node')
+    if not (isinstance(d, ast.Constant) and d.value is None):
+        raise Unsupported('default of max_node is not None')
+    # translated at max_node=None, the only way the resolver and the sampler call it
+    tr = Tr(fn, {'source_graph': 'graph', 'target_graph': 'graph', 'max_node': 'none'}, fixed_none=['max_node'])
+    return tr.translate('gen_merge_graphs')
+
+
 PREAMBLE = ('From Coq Require Import Lia.\n'
             'From CGV Require Import Base.NxGraph Resolve.GraphOps Resolve.SourcePrims.\n'
             'Open Scope Z_scope.\n\n')
@@ -1058,4 +1068,5 @@ def gen_graphutils(trees):
     t = trees['cgsmiles/graph_utils.py']
     out = PREAMBLE
     out += gen_sort(t)
+    out += '\n' + gen_merge(t)
     return out
